@@ -66,7 +66,13 @@ func (r Int) Max(a, b ConstScalar) Scalar {
 func (c Int) Abs(a ConstScalar) Scalar {
   switch a.Sign() {
   case -1: c.Neg(a)
-  case 0: c.Reset()
+  case 0:
+    if x := a.GetFloat64(); x != x {
+      // NaN is neither negative, zero nor positive
+      c.Set(a)
+    } else {
+      c.Reset()
+    }
   case 1: c.Set(a)
   }
   return c
